@@ -140,6 +140,11 @@ def special_scenarios(tier):
                 scs.append(dict(special='sheet', variant=v, n=n, apex=apex, height=h, atol=at, decoy='mirror', noise=0, place=SPECIAL_PLACE))
     scs += [dict(special='names', variant=v, long=lg, cell=ci, atol=0.05, decoy='lookalike', noise=0, place=SPECIAL_PLACE) for v in (0, 1, 2) for lg in (0, 1) for ci in (0, 2)]
     scs += [dict(special='large', variant=v, atol=0.05, decoy='none', noise=0, place=SPECIAL_PLACE) for v in (0, 1, 2)]
+    # several copies in a structure whose atoms are stored in reverse / interleaved order (matches are not found in index order)
+    scs += [dict(special='reordered', cell=ci, pat=pn, pose0=p0, layout=li, order=o, atol=0.05, decoy='none', noise=0, place=SPECIAL_PLACE)
+            for ci in (0, 2) for pn in ('CN', 'CNO', 'CH4') for p0 in (0, 4) for li in (2, 3) for o in (0, 1)]
+    # a triclinic cell whose tilt factors are all negative
+    scs += [dict(special='negcell', pat=pn, subpose=pi, place=pl, atol=0.05, decoy=d, noise=0) for pn in ('CN', 'CNO', 'CH4') for pi in (0, 4) for pl in [P(*c) for c in G.CORNERS[::3]] + [P(0.5, 0.5, 0.5)] for d in ('none', 'second')]
     return scs
 
 
@@ -151,6 +156,22 @@ def named_atoms(el, pos, cell):
 
 def special(sc, ctx):
     kind = sc['special']; seed = ctx['seed']
+    if kind in ('reordered', 'negcell'):
+        if kind == 'negcell':
+            rot = sub_poses(seed)[sc['subpose']]; cell = G.TRI_N
+            spec = G.build(cell, sc['pat'], rot, G.PLACEMENTS[sc['place']], decoy=sc['decoy'], atol=sc['atol'], noise=False, seed=seed)
+            perm = list(range(len(spec['el'])))
+        else:
+            cell = G.CELLS[sc['cell']][1]; sp = sub_poses(seed)
+            spec = G.build(cell, sc['pat'], sp[sc['pose0']], G.PLACEMENTS[P(0.03, 0.03, 0.03)], decoy='none', atol=sc['atol'], noise=False, seed=seed, extra_copies=[(sp[pi], fr) for pi, fr in LAYOUTS[sc['layout']]])
+            n = len(spec['el']); perm = list(range(n))[::-1] if sc['order'] == 0 else list(range(1, n, 2)) + list(range(0, n, 2))[::-1]
+        inv = {old: new for new, old in enumerate(perm)}
+        el = [spec['el'][i] for i in perm]; pos = np.asarray(spec['pos'])[perm]
+        spec = dict(spec, el=el, pos=pos, planted=[tuple(inv[i] for i in t) for t in spec['planted']])
+        w = min(perpendicular_widths(cell)); diam = np.linalg.norm(spec['pp'][:, None] - spec['pp'][None], axis=2).max()
+        if not w > diam + 2 * sc['atol']:
+            raise HarnessError('alphabet violates the domain')
+        return dict(s=Atoms(elements=el, positions=pos, cell=cell.copy()), p=Atoms(elements=spec['pel'], positions=spec['pp'] + np.array([3.3, -1.2, 0.7])), spec=spec, cell=cell, kw={})
     if kind == 'sheet':
         cell = G.SHEET_CELLS[sc['variant']]
         pel, pp = G.sheet_pattern(sc['n'], sc['height'], sc['apex'])
